@@ -3,7 +3,7 @@ import vpl, re
 from concurrent.futures import ThreadPoolExecutor
 
 LEVEL = "proof"
-LIBS = ["FsLemmas.vo", "VtmfVerLemmas.vo"]
+LIBS = ["FsLemmas.vo", "VtmfVerLemmas.vo", "SkcLemmas.vo"]
 GROUPS = ["rec", "vtmf", "cutchoose", "groth", "hoogh", "pedersen", "qr"]
 # every proof system the grid must have exercised (an honest accepted transcript found and mutated)
 EXPECTED = ["keynizk", "keyint", "keypc", "mask", "remask", "decrypt", "or", "maskcard", "cardsecret", "cutchoose", "cutchoose_cyc",
